@@ -102,30 +102,49 @@ def configs(ctx):
 
 
 # ----------------------------------------------------------------------------- evaluation
-def model_line(res, opts):
-    """One `R` line for bin/goalq.  All exported numbers of a run are dyadic; they are multiplied by ONE common
-    power of two so that they become integers (run_ok is invariant under a common positive scaling of centres and
-    radii: theorems C02_approx_ok_scale / C02_disjoint_scale) - this keeps the extracted binary arithmetic cheap."""
+KCAP = 40000          # longest integers (bits) handed to the extracted binary arithmetic
+BUDGET = [6e8]        # bound on (roots + pairs) * 2 * bits^2 bit-steps per run (set per tier in run())
+
+
+def model_line(res, opts, exact=False):
+    """One `R` line for bin/goalq -> (line or None, rounded?).  All exported numbers of a run are dyadic; they are
+    multiplied by ONE common power of two so that they become integers (C02_run_ok_scale: same verdict).
+    Radii that are many orders of magnitude below the last bit of the centres (exactly representable roots) would
+    force integers of 10^5..10^7 bits: unless exact=True such a radius is rounded UP to the grid 2^-(kc+80), kc = the
+    finest centre exponent.  A larger radius can only make run_ok fail, so a positive verdict stands; a negative
+    verdict obtained with rounded radii is re-evaluated with exact=True by the caller."""
     m = res.meta
     exempt = 1 if ("-c" in opts or "-m" in opts) else 0
     vals = []
     for o, a in zip(res.roots, res.accm):
         rad = a.rad
         if rad is None or isinstance(rad, S.HugeDyadic): rad = BIG
-        vals.append((o.status, a.re, a.im, rad))
-    k = 0
-    for (_, x, y, r) in vals:
-        for v in (x, y, r):
-            dn = v.denominator
-            if dn & (dn - 1): raise vf.InfraError("exported number is not dyadic: %r" % (v,))
-            k = max(k, dn.bit_length() - 1)
+        vals.append([o.status, a.re, a.im, rad])
+    def ex2(v):
+        dn = v.denominator
+        if dn & (dn - 1): raise vf.InfraError("exported number is not dyadic: %r" % (v,))
+        return dn.bit_length() - 1
+    kc = max([0] + [ex2(v) for (_, x, y, _) in vals for v in (x, y)])
+    rounded = False
+    k = kc
+    for v in vals:
+        kr = ex2(v[3])
+        if kr > kc + 80 and not exact:
+            g = 1 << (kc + 80)
+            v[3] = Fr(-((-v[3].numerator * g) // v[3].denominator), g); rounded = True      # ceiling on the grid
+            kr = ex2(v[3])
+        k = max(k, kr)
     sc = 1 << k
     toks = ["R", GOALCH.get(m["goal"], "c"), str(m["over_max"]), str(exempt), str(m["prec_out"]), str(len(vals))]
     for (s, x, y, r) in vals:
         X, Y, Rr = x * sc, y * sc, r * sc
         assert X.denominator == 1 and Y.denominator == 1 and Rr.denominator == 1
+        bits = max(abs(X.numerator).bit_length(), abs(Y.numerator).bit_length(), Rr.numerator.bit_length())
+        n = len(vals)
+        if bits > KCAP or (n + n * (n - 1) // 2) * 2.0 * bits * bits > BUDGET[0]:
+            return None, rounded
         toks += [str(s), hex(X.numerator), hex(Y.numerator), hex(Rr.numerator)]       # hexadecimal: exact, no decimal conversion of long integers
-    return " ".join(toks)
+    return " ".join(toks), rounded
 
 
 def excess_class(d, a):
@@ -160,6 +179,7 @@ def run(ctx):
     ctx.prove()
     ctx.proof_violation_if_broken()
     binary = ctx.compile_harness(["vf_solve.c"], "vf_solve", mode="san")
+    BUDGET[0] = ctx.pick(6e8, 3e10)
     env = ctx.san_env()
     rng = ctx.rng
     # --- tie of the status tables to the header
@@ -204,11 +224,30 @@ def run(ctx):
             stats["skipped:" + r.kind] += 1; continue
         if r.meta.get("search_set", 0) != 0 or len(r.roots) != len(r.accm):
             stats["skipped:not-whole-plane"] += 1; continue
-        lines.append(model_line(r, rec["opts"])); keep.append(rec)
+        ln, rnd = model_line(r, rec["opts"])
+        if ln is None:
+            stats["skipped:exact-evaluation-over-budget"] += 1; continue
+        rec["rounded"] = rnd
+        if rnd: stats["evaluated-with-radii-rounded-up"] += 1
+        lines.append(ln); keep.append(rec)
+    if os.environ.get("C02_DUMP_LINES"):
+        with open(os.environ["C02_DUMP_LINES"], "w") as f: f.write("\n".join(lines) + "\n")
     order = sorted(range(len(lines)), key=lambda i: -len(lines[i]))       # longest first: run_model_lines deals them round-robin
     souts = ctx.run_model_lines("goalq", [lines[i] for i in order], timeout=ctx.pick(600, 3000))
     outs = [None] * len(lines)
     for i, o in zip(order, souts): outs[i] = o
+    # a negative verdict obtained with radii rounded up is re-evaluated exactly
+    redo = [i for i, (rec, ln) in enumerate(zip(keep, outs)) if rec["rounded"] and ln.split()[0] != "1"]
+    for i in redo:
+        ln, _ = model_line(keep[i]["res"], keep[i]["opts"], exact=True)
+        if ln is None:
+            outs[i] = None; stats["skipped:negative-with-rounded-radii-and-exact-form-too-long"] += 1
+        else:
+            outs[i] = ctx.run_model("goalq", ln + "\n", timeout=ctx.pick(600, 3000)).split("\n")[0]; lines[i] = ln
+            stats["re-evaluated-exactly"] += 1
+    pairs_ = [(rec, ln) for rec, ln in zip(keep, outs) if ln is not None]
+    lines = [l for l, ln in zip(lines, outs) if ln is not None]
+    keep = [p[0] for p in pairs_]; outs = [p[1] for p in pairs_]
     ctx.log("model evaluation done: %d runs" % len(keep))
     samples = []; nontrivial = set(); examined = 0; roots_eval = 0; pairs_eval = 0
     hist_goal = collections.Counter(); hist_status = collections.Counter(); hist_phase = collections.Counter(); hist_digits = collections.Counter()
@@ -298,6 +337,7 @@ def run(ctx):
                             "the solver's iteration is not modelled: each run's output is validated, modify.c's status bookkeeping is transcribed by hand (modify_status)",
                             "the regex that reads the enum and the two tables from include/mps/types.h"]}
     return ctx.finish("translation_validation", cov,
-                      ["inputs have simple roots by construction (distinct rational roots) or by an exact gcd test; floating-point inputs are random, their roots are not certified simple",
+                      ["radii far below the last bit of the centres are first rounded UP (conservative for every clause); a negative verdict is always re-evaluated on the exact values before it is reported",
+                       "inputs have simple roots by construction (distinct rational roots) or by an exact gcd test; floating-point inputs are random, their roots are not certified simple",
                        "errors, timeouts and sanitizer reports of a solve are left to C03/C05 and counted as skipped",
                        "APPROXIMATED_IN_CLUSTER counts as 'reported approximated' in every clause (it does in MPS_ROOT_STATUS_IS_APPROXIMATED and in both stop conditions)"])
